@@ -386,7 +386,7 @@ struct SpawnArgs {
         dyn FnOnce() -> std::pin::Pin<Box<dyn Future<Output = Result<JoinHandle<()>, SpawnErr>>>>
             + Send,
     >,
-    reply: RpcReplyPort<AbortOnDropHandle<Result<JoinHandle<()>, SpawnErr>>>,
+    reply: RpcReplyPort<AbortOnDropHandle<Result<AbortOnDropHandle<()>, SpawnErr>>>,
     name: Option<String>,
 }
 
@@ -416,6 +416,16 @@ impl<T> Drop for AbortOnDropHandle<T> {
             handle.abort();
         }
     }
+}
+
+/// The result of the start task owns the actor's processing task until the spawning future
+/// has received it. If the spawning future is dropped while the result is still in flight
+/// (the start task already finished on the spawner thread), the processing task is aborted
+/// as well instead of being detached, so a cancelled spawn never leaves an actor running.
+async fn guard_start_result(
+    fut: std::pin::Pin<Box<dyn Future<Output = Result<JoinHandle<()>, SpawnErr>>>>,
+) -> Result<AbortOnDropHandle<()>, SpawnErr> {
+    fut.await.map(AbortOnDropHandle::new)
 }
 
 /// The [ThreadLocalActorSpawner] is responsible for spawning [ThreadLocalActor] instances
@@ -463,7 +473,7 @@ impl ThreadLocalActorSpawner {
                     name,
                 }) = recv.recv().await
                 {
-                    let fut = builder();
+                    let fut = guard_start_result(builder());
                     #[cfg(tokio_unstable)]
                     {
                         let handle = tokio::task::Builder::new()
@@ -505,7 +515,7 @@ impl ThreadLocalActorSpawner {
                     name,
                 }) = recv.recv().await
                 {
-                    let fut = builder();
+                    let fut = guard_start_result(builder());
                     _ = name;
                     let handle = crate::concurrency::spawn_local(fut);
                     _ = reply.send(AbortOnDropHandle::new(handle));
@@ -528,7 +538,7 @@ impl ThreadLocalActorSpawner {
                 name: _name,
             }) = recv.recv().await
             {
-                let fut = builder();
+                let fut = guard_start_result(builder());
                 let handle = crate::concurrency::spawn_local(fut);
                 _ = reply.send(AbortOnDropHandle::new(handle));
             }
@@ -562,6 +572,15 @@ impl ThreadLocalActorSpawner {
             .map_err(|inner| SpawnErr::StartupFailed(inner.into()))?;
         let rx_result = task.handle_mut().await;
         task.disarm();
+        // the processing task is now owned by the caller: release it from the in-flight guard
+        let rx_result = rx_result.map(|started| {
+            started.map(|mut processing| {
+                processing
+                    .handle
+                    .take()
+                    .expect("task handle should be present")
+            })
+        });
 
         #[cfg(not(feature = "async-std"))]
         {
